@@ -1185,7 +1185,18 @@ fn dump(json: &Value, out: &mut Vec<String>, stats: &mut Stats) {
             "counter {} {} {}",
             c.get("pid").and_then(|x| x.as_str()).unwrap_or("?"),
             c.get("mainThreadIndex").map(tok).unwrap_or("x".into()),
-            c.get("samples").and_then(|s| s.get("length")).map(tok).unwrap_or("x".into())
+            {
+                // `samples.length`, provided every column of the counter's sample table has that length
+                let sm = c.get("samples");
+                let len = sm.and_then(|s| s.get("length")).and_then(|x| x.as_u64());
+                let cols_ok = ["count", "number", "timeDeltas"]
+                    .iter()
+                    .all(|k| sm.and_then(|s| s.get(*k)).and_then(|x| x.as_array()).map(|a| a.len() as u64) == len);
+                match (len, cols_ok) {
+                    (Some(l), true) => l.to_string(),
+                    _ => "x".into(),
+                }
+            }
         ));
     }
     let threads = json.get("threads").and_then(|x| x.as_array()).cloned().unwrap_or_default();
@@ -1314,7 +1325,15 @@ impl Prop for C03 {
             regs: HashMap::new(),
         };
         let mut out = Vec::new();
-        for l in ops {
+        let half = ops.len() / 2;
+        for (opi, l) in ops.iter().enumerate() {
+            // serialisation must not change the profile: serialise once half-way (result discarded) so that anything
+            // cached at the first serialisation (used-lib list, thread order, string tables) would be stale at the end
+            if opi == half && half > 0 {
+                if catch_unwind(AssertUnwindSafe(|| serde_json::to_value(&ex.p).is_ok())).is_err() {
+                    stats.bump("midway_serialize_panics");
+                }
+            }
             let w: Vec<&str> = l.split_whitespace().collect();
             stats.bump(&format!("op_{}", w[0]));
             let r = catch_unwind(AssertUnwindSafe(|| ex.step(&w, stats)));
@@ -1338,7 +1357,16 @@ impl Prop for C03 {
             }
         }
         match catch_unwind(AssertUnwindSafe(|| serde_json::to_value(&ex.p))) {
-            Ok(Ok(json)) => dump(&json, &mut out, stats),
+            Ok(Ok(json)) => {
+                // serialising twice gives the same JSON
+                match catch_unwind(AssertUnwindSafe(|| serde_json::to_value(&ex.p))) {
+                    Ok(Ok(again)) if again == json => dump(&json, &mut out, stats),
+                    _ => {
+                        stats.bump("second_serialization_differs");
+                        out.push("serialize-twice-differs".into());
+                    }
+                }
+            }
             Ok(Err(_)) => out.push("serialize-error".into()),
             Err(_) => {
                 stats.bump("serialize_panics");
